@@ -65,6 +65,7 @@ func executeFree(plan *Plan) (viol []Violation, ops int) {
 	// cycles empty it, so that the reference really runs on fresh printers
 	runtime.GC()
 	runtime.GC()
+	buildShared(plan)
 	exp, _ := reference(plan)
 	var sinkCh chan handoff
 	if plan.Cfg.Sink {
